@@ -111,3 +111,88 @@ def rec_conform(items, opts):
             tr['exc'] = record.exc_key(e)
         out.append(tr)
     return out
+
+
+def _issue_list(issues):
+    out = []
+    for i in issues:
+        msg = i.message if isinstance(i.message, str) else ''
+        code = i.code if isinstance(i.code, int) and not isinstance(i.code, bool) else -1
+        out.append({'code': code, 'mp': msg.split(': ')[0] if ': ' in msg else msg[:40], 'ml': len(msg),
+                    's': list(i.start_pos), 'e': list(i.end_pos)})
+    return out
+
+
+def _light_nodes(m):
+    order = record.walk(m)
+    idx = {id(n): i + 1 for i, n in enumerate(order)}
+    nodes = []
+    for n in order:
+        leaf = not hasattr(n, 'children')
+        nodes.append({'type': n.type, 'leaf': leaf, 'tt': getattr(n, 'token_type', '') if leaf else '',
+                      'kids': [] if leaf else [idx[id(c)] for c in n.children], 'sp': 0,
+                      's': list(n.start_pos) if (leaf or n.children) else [0, 0],
+                      'e': list(n.end_pos) if (leaf or n.children) else [0, 0]})
+    for i, nd in enumerate(nodes):
+        for k in nd['kids']:
+            nodes[k - 1]['sp'] = i + 1
+    return nodes
+
+
+def rec_issues(items, opts):
+    """opts: kind 'errors' | 'pep8'; provenance (bool: also list issues for diff-parsed and unpickled trees)"""
+    import pickle
+    from parso.python import pep8
+    kind = opts['kind']
+    out = []
+    for tid, text, ver, origin in items:
+        tr = {'id': tid, 'ver': ver, 'origin': origin, 'kind': kind, 'inp': cps(text), 'nodes': [], 'calls': [],
+              'raised': False, 'exc': '', 'd0': 0, 'd1': 0, 'strict': False, 'prov': [], 'text': text,
+              'fs39': tuple(int(x) for x in ver.split('.')) >= (3, 9), 'nontrivial': False, 'cfg': opts.get('cfg', '')}
+        try:
+            g, m = record.parse(text, ver)
+        except Exception as e:  # noqa: parse failures belong to C02
+            continue
+        tr['nodes'] = _light_nodes(m)
+        tr['d0'] = intern(m.dump(indent=None))
+
+        def listing(mod):
+            if kind == 'errors':
+                return list(g.iter_errors(mod))
+            cfgname = opts.get('cfg', '')
+            config = None
+            if cfgname == 'i2':
+                config = pep8.PEP8NormalizerConfig(indentation='  ')
+            elif cfgname == 'tab':
+                config = pep8.PEP8NormalizerConfig(indentation='\t')
+            elif cfgname == 'short':
+                config = pep8.PEP8NormalizerConfig(max_characters=20)
+            return g._get_normalizer_issues(mod, config) if config else g._get_normalizer_issues(mod)
+        try:
+            tr['calls'].append(_issue_list(listing(m)))
+            tr['calls'].append(_issue_list(listing(m)))
+        except Exception as e:  # noqa
+            tr['raised'] = True
+            tr['exc'] = record.exc_key(e)
+        tr['d1'] = intern(m.dump(indent=None))
+        if kind == 'errors':
+            try:
+                g.parse(text, error_recovery=False)
+            except Exception:
+                tr['strict'] = True
+        if opts.get('provenance') and not tr['raised']:
+            try:
+                m2 = pickle.loads(pickle.dumps(m))
+                tr['prov'].append(_issue_list(listing(m2)))
+                # incremental: parse a perturbed text first, then the real one through the diff parser
+                from parso.python.diff import DiffParser
+                half = text[:len(text) // 2]
+                old = g.parse(half)
+                dp = DiffParser(g._pgen_grammar, g._tokenizer, old)
+                m3 = dp.update(record.parso.split_lines(half, keepends=True), record.parso.split_lines(text, keepends=True))
+                tr['prov'].append(_issue_list(listing(m3)))
+            except Exception as e:  # noqa
+                tr['prov'].append([{'code': -7, 'mp': record.exc_key(e), 'ml': 1, 's': [0, 0], 'e': [0, 0]}])
+        tr['nontrivial'] = bool(tr['calls'] and tr['calls'][0])
+        out.append(tr)
+    return out
